@@ -233,6 +233,16 @@ theorem no_overflow_aux (ρ : Env) : (e : Expr) → ∀ (t : ATree) (v : CVal),
       simp only [cppEval]
       exact no_overflow_aux ρ e t' v ht' hv2 henv hev hv1
     · cases hv2
+  | .present a c, t, v, hann, hg, henv, hev, hv => by
+    simp only [vrefsGated, Bool.and_eq_true] at hv
+    obtain ⟨hv1, hv2⟩ := hv
+    split at hv2
+    · rename_i t' ht'
+      simp only [decide_eq_true_eq] at hv2
+      simp only [eval] at hev
+      simp only [cppEval]
+      exact no_overflow_aux ρ c t' v ht' hv2 henv hev hv1
+    · cases hv2
 theorem no_overflow_list (ρ : Env) : (es : List Expr) → ∀ (ts : List ATree) (vs : List CVal),
     annotList es = some ts → (∀ t ∈ ts, gate t = some []) → EnvOkList ρ es →
     evalList ρ es = some vs → vrefsGatedList es = true →
